@@ -158,8 +158,13 @@ def task_order(env, lp, npol, N, A=3, d=1, twin=False):
         train(b_)
     finally:
         stubs.PAR_MODE['sharedmem'] = 'seq'
+    # the same training with n_jobs = 1 (the per-arm tasks exist for every arm whatever the job count)
+    c_, _ = new_mab(env, arms, lp, npol, n_jobs=1, seed=hp['seed'], hp=hp)
+    train(c_)
     q = env.reals('q', (1, ctxd)) if ctxd else None
-    outputs_equal(env, 'exp', ask(a_, 'expectations', q), ask(b_, 'expectations', q))
+    e_a = ask(a_, 'expectations', q)
+    outputs_equal(env, 'exp', e_a, ask(b_, 'expectations', q))
+    outputs_equal(env, 'exp.vs_n_jobs1', e_a, ask(c_, 'expectations', q))
     outputs_equal(env, 'pred', ask(a_, 'predict', q), ask(b_, 'predict', q))
     if twin:
         env.ob('twin.false', False)
